@@ -179,12 +179,23 @@ def exp_desc(k):
             m.minmax(np.array([-2.0, -1.0, 0, 0]) @ x4 + z @ x4[:2], rso.norm(A @ z) <= 1)
             m.st(rso.exp(x4[0]) <= (2.0 if k == 10 else 0.25))
             m.st(rso.norm(x4, 1) <= 2.0)
+        elif k in (13, 14, 15):
+            # robust model over norm(A @ z) <= 1 with a ZERO row in A (a cone member without any coefficient) next to a row
+            # with two unit coefficients: the cone rows of the LP dual are not an identity block
+            A = {13: np.array([[1.0, 1.0], [0.0, 0.0]]), 14: np.array([[1.0, -1.0], [0.0, 0.0]]),
+                 15: np.array([[1.0, 0.0, -1.0], [0.0, 0.0, 0.0]])}[k]
+            n_ = A.shape[1]
+            xx = m.dvar(n_)
+            z = m.rvar(n_)
+            m.min(-xx.sum())
+            m.st(((1 + 0.5 * z) @ xx <= 2).forall(rso.norm(A @ z) <= 1, z >= -2, z <= 2))
+            m.st(xx >= 0, xx <= 5)
         return m
     return build
 
 
-EXP_QUICK = [0, 1, 2, 3, 4, 5, 6, 10, 11, 12]
-EXP_ALL = list(range(13))
+EXP_QUICK = [0, 1, 2, 3, 4, 5, 6, 10, 11, 12, 13, 14, 15]
+EXP_ALL = list(range(16))
 
 
 def soc_paired(P, D):
